@@ -259,24 +259,46 @@ impl<'a> World<'a> {
 		let mut inherited = Vec::new();
 		let mut relayed = Vec::new();
 		let mut seen = BTreeSet::new();
-		let known = |class: &str| set.classes.contains_key(class);
+		// state of a class entry: 0 = the mapping set has none, 1 = present without target name, 2 = present with one
+		let known = |class: &str| -> u8 {
+			match set.classes.get(class) {
+				None => 0,
+				Some(k) if k.names.get(1).cloned().flatten().is_none() => 1,
+				Some(_) => 2,
+			}
+		};
+		struct Walk<'w> {
+			supers: &'w dyn Fn(&str) -> Vec<String>,
+			entry: &'w dyn Fn(&str) -> Option<Option<String>>,
+			known: &'w dyn Fn(&str) -> u8,
+			seen: &'w mut BTreeSet<String>,
+			out: &'w mut Vec<(String, usize)>,
+			relayed: &'w mut Vec<Relay>,
+		}
 		// depth-first in declaration order, so that `inherited[0]` is the first one in declaration order
-		#[allow(clippy::too_many_arguments)]
-		fn walk(class: &str, supers: &dyn Fn(&str) -> Vec<String>, entry: &dyn Fn(&str) -> Option<Option<String>>, known: &dyn Fn(&str) -> bool, seen: &mut BTreeSet<String>, out: &mut Vec<(String, usize)>, relayed: &mut Vec<bool>, depth: usize, through_unknown: bool) {
-			for p in supers(class) {
-				if !seen.insert(p.clone()) {
+		fn walk(w: &mut Walk, class: &str, class_unknown: bool, depth: usize, path: Relay) {
+			for (j, p) in (w.supers)(class).into_iter().enumerate() {
+				if !w.seen.insert(p.clone()) {
 					continue;
 				}
-				match entry(&p) {
+				let mut path = path;
+				path.to_later_super_of_unknown |= class_unknown && j > 0;
+				match (w.entry)(&p) {
 					Some(Some(n)) => {
-						out.push((n, depth + 1));
-						relayed.push(through_unknown);
+						w.out.push((n, depth + 1));
+						w.relayed.push(path);
 					},
-					_ => walk(&p, supers, entry, known, seen, out, relayed, depth + 1, through_unknown || !known(&p)),
+					e => {
+						let k = (w.known)(&p);
+						path.unknown += usize::from(k == 0);
+						path.without_target_name |= k == 1;
+						path.own_entry_without_target_name |= e.is_some();
+						walk(w, &p, k == 0, depth + 1, path);
+					},
 				}
 			}
 		}
-		walk(owner, supers, &entry, &known, &mut seen, &mut inherited, &mut relayed, 0, false);
+		walk(&mut Walk { supers, entry: &entry, known: &known, seen: &mut seen, out: &mut inherited, relayed: &mut relayed }, owner, false, 0, Relay::default());
 		Lookup { own, inherited, relayed }
 	}
 
@@ -302,13 +324,13 @@ impl<'a> World<'a> {
 		}
 	}
 
-	/// for the vacuity floors: (the intermediary name of `r` is inherited from a super type, the path to that
-	/// super type leads through a class without entry in the calamus mappings)
-	pub fn int_name_inherited(&self, r: &MRef) -> (bool, bool) {
+	/// for the vacuity floors: `Some` = the intermediary name of `r` is inherited from a super type, with the kind
+	/// of classes on the path to that super type
+	pub fn int_name_inherited(&self, r: &MRef) -> Option<Relay> {
 		let l = Self::lookup(&self.input.calamus, &|c| self.official_supers(c), &r.0, &r.1, &r.2);
 		match l.own {
-			Some(Some(_)) => (false, false),
-			_ => (!l.inherited.is_empty(), l.relayed.first().copied().unwrap_or(false)),
+			Some(Some(_)) => None,
+			_ => l.relayed.first().copied(),
 		}
 	}
 
@@ -445,9 +467,22 @@ pub struct Lookup {
 	pub own: Option<Option<String>>,
 	/// (name, depth) from the nearest naming super type of every path, declaration order
 	pub inherited: Vec<(String, usize)>,
-	/// per element of `inherited`: the path to it leads through a class that has no class entry in the mapping
-	/// set (such a class relays to its own super types); for the vacuity floors only
-	pub relayed: Vec<bool>,
+	/// per element of `inherited`: what kind of classes the path to it leads through (a class on the path names
+	/// nothing itself: it relays to its own super types); for the vacuity floors only
+	pub relayed: Vec<Relay>,
+}
+
+/// the classes between the owner and the naming super type on one path of a `Lookup`
+#[derive(Clone, Copy, Debug, Default)]
+pub struct Relay {
+	/// classes without a class entry in the mapping set
+	pub unknown: usize,
+	/// a class whose class entry has no target name
+	pub without_target_name: bool,
+	/// a class that lists the method itself, without target name
+	pub own_entry_without_target_name: bool,
+	/// a class without class entry handed on to a super type that is not its first one (an interface)
+	pub to_later_super_of_unknown: bool,
 }
 
 #[derive(Clone, Debug)]
@@ -545,7 +580,7 @@ pub fn expect(world: &World) -> Expectation {
 		let mut names: Vec<Option<String>> = Vec::new(); // None = nothing happens
 		let fallback = int_bridge.1.clone();
 		let mut how = String::new();
-		let mut relay_named = false;
+		let mut relay_named: Option<Relay> = None;
 		match &look.own {
 			Some(Some(n)) => {
 				names.push(Some(n.clone()));
@@ -563,7 +598,7 @@ pub fn expect(world: &World) -> Expectation {
 				}
 				if distinct.len() == 1 && own.is_none() {
 					how = format!("inherited-depth-{}", look.inherited.iter().filter(|e| e.0 == distinct[0].0).map(|e| e.1).min().unwrap_or(0));
-					relay_named = look.inherited.len() == 1 && look.relayed[0];
+					relay_named = if look.inherited.len() == 1 { look.relayed.first().copied() } else { None };
 				} else if distinct.len() > 1 {
 					how = "inherited-ambiguous".into();
 				}
@@ -631,21 +666,34 @@ pub fn expect(world: &World) -> Expectation {
 					if int_bridge != c.bridge || &int_delegate != delegate {
 						tags.insert("rename:through-real-calamus-renames".into());
 					}
-					if relay_named {
-						tags.insert("rename:name-relayed-by-a-class-without-entry-in-the-mappings".into());
-					}
-					let (bi, br) = world.int_name_inherited(&c.bridge);
-					if bi && int_bridge.1 != c.bridge.1 {
-						tags.insert("rename:bridge-intermediary-name-inherited".into());
-						if br {
-							tags.insert("rename:bridge-intermediary-name-relayed-by-a-class-without-calamus-entry".into());
+					if let Some(r) = relay_named {
+						if r.unknown >= 1 {
+							tags.insert("rename:name-relayed-by-a-class-without-entry-in-the-mappings".into());
+						}
+						if r.unknown >= 2 {
+							tags.insert("rename:name-relayed-by-two-or-more-classes-without-entry-in-the-mappings".into());
+						}
+						if r.to_later_super_of_unknown {
+							tags.insert("rename:name-relayed-by-a-class-without-entry-in-the-mappings-to-its-interface".into());
+						}
+						if r.without_target_name {
+							tags.insert("rename:name-relayed-by-a-class-entry-without-target-name".into());
+						}
+						if r.own_entry_without_target_name {
+							tags.insert("rename:name-relayed-by-a-class-that-lists-the-bridge-without-target-name".into());
 						}
 					}
-					let (di, dr) = world.int_name_inherited(delegate);
-					if di && int_delegate.1 != delegate.1 {
-						tags.insert("rename:delegate-intermediary-name-inherited".into());
-						if dr {
-							tags.insert("rename:delegate-intermediary-name-relayed-by-a-class-without-calamus-entry".into());
+					for (who, r, renamed) in [("bridge", world.int_name_inherited(&c.bridge), int_bridge.1 != c.bridge.1), ("delegate", world.int_name_inherited(delegate), int_delegate.1 != delegate.1)] {
+						let Some(r) = r.filter(|_| renamed) else { continue };
+						tags.insert(format!("rename:{who}-intermediary-name-inherited"));
+						if r.unknown >= 1 {
+							tags.insert(format!("rename:{who}-intermediary-name-relayed-by-a-class-without-calamus-entry"));
+						}
+						if r.unknown >= 2 {
+							tags.insert(format!("rename:{who}-intermediary-name-relayed-by-two-or-more-classes-without-calamus-entry"));
+						}
+						if r.to_later_super_of_unknown {
+							tags.insert(format!("rename:{who}-intermediary-name-relayed-by-a-class-without-calamus-entry-to-its-interface"));
 						}
 					}
 				} else {
